@@ -233,10 +233,28 @@ pub fn run(ctx: &mut Ctx) -> Result<(), Violation> {
                 f.tt = f.tt.and(&g.tt);
             }
         }
+        let mode = crate::fun::gen_operands(&mut t);
         record(&f, "api", st);
-        check_api(&f)
+        st.class(&format!("operands:{}", mode.name()));
+        crate::fun::with_operands(mode, || check_api(&f))
     });
     ctx.stage("api-random-functions-up-to-8-vars", false, r)?;
+
+    // diagrams that do not come from the extracting environment (plain values such as
+    // BDD::<usize>::from(named) produces, or another environment's nodes): all 3- and 4-variable functions
+    for mode in [crate::fun::Operands::Plain, crate::fun::Operands::OtherEnv] {
+        let r = par_exhaustive(ctx, 256 + 65536, |i, st| {
+            let f = if i < 256 {
+                Fun::new(TT::from_bits(3, i), vec![1, 4, 8])
+            } else {
+                Fun::new(TT::from_bits(4, i - 256), vec![0, 1, 2, 3])
+            };
+            st.eval();
+            st.class(&format!("operands:{}", mode.name()));
+            crate::fun::with_operands(mode, || check_api(&f))
+        });
+        ctx.stage(&format!("api-all-functions-k3-k4-operands-{}", mode.name()), true, r)?;
+    }
 
     // CLI: all functions of <= 2 variables, then a seeded sample of 3- and 4-variable functions
     let mut jobs: Vec<Fun> = Vec::new();
@@ -264,7 +282,7 @@ pub fn run(ctx: &mut Ctx) -> Result<(), Violation> {
 pub fn replay(case: &Value) -> Check {
     let f = Fun::from_json(&case["f"]);
     match (case["kind"].as_str(), f) {
-        (Some("api"), Some(f)) => check_api(&f),
+        (Some("api"), Some(f)) => crate::fun::with_operands(crate::fun::case_operands(case), || check_api(&f)),
         (Some("cli"), Some(f)) => check_cli(&f),
         _ => Err(Violation::new("unreadable replay case", case.clone())),
     }
